@@ -4,6 +4,7 @@
 //! (C17) engines: id-carrying requests, a checking echo handler, streaming bodies, a routing transport with
 //! byte taps and dial log, a counting executor, gates, and the TLS fixtures.
 
+pub mod deadline;
 pub mod faults;
 pub mod panics;
 pub mod shutdown;
@@ -385,11 +386,23 @@ impl tower::Service<Request<Body>> for Handler {
                     tokio::task::yield_now().await;
                 }
             }
+            if let Some(ms) = hdr("x-sleep-ms").and_then(|s| s.parse::<u64>().ok()) {
+                tokio::time::sleep(std::time::Duration::from_millis(ms)).await;
+            }
             {
                 let mut m = me.log.in_handler.lock().unwrap();
                 *m.entry((me.server, me.conn)).or_insert(1) -= 1;
             }
             me.log.handled.lock().unwrap()[idx].finished = true;
+            // "/r/<id>/hop<k>" with k > 0 redirects to hop<k-1>
+            if let Some(k) = parts.uri.path().rsplit('/').next().and_then(|l| l.strip_prefix("hop")).and_then(|k| k.parse::<u32>().ok()).filter(|k| *k > 0) {
+                let mut resp = Response::new(ChunkBody::default());
+                *resp.status_mut() = http::StatusCode::FOUND;
+                let loc = format!("/r/{id}/hop{}", k - 1);
+                resp.headers_mut().insert("location", http::HeaderValue::from_str(&loc).unwrap());
+                resp.headers_mut().insert("x-id", http::HeaderValue::from(id));
+                return Ok(resp);
+            }
             if hdr("x-fault").as_deref() == Some("handler-err") {
                 return Err("injected handler error".into());
             }
